@@ -75,6 +75,12 @@ func generate(repo string) (*Run, error) {
 			r.owner[ob] = fc
 		}
 	}
+	for _, rl := range w.cs.RegLemmas {
+		r.obls = append(r.obls, r.regLemmaObligation(pkgShort(rl.Pkg)+".reglemma/"+rl.Name, rl.Tags, rl.Text, "regular-language lemma over the pattern literals of the current source"))
+	}
+	for _, d := range w.cs.Directives {
+		r.obls = append(r.obls, r.directiveObligations(d)...)
+	}
 	return r, nil
 }
 
